@@ -283,6 +283,37 @@ static std::string signature_from_stderr(const std::string &err, int status)
         }
         return "asan:" + kind + "@harness:" + first_any;
     }
+    a = err.find("ThreadSanitizer: ");
+    if (a != std::string::npos)
+    {
+        size_t b = a + strlen("ThreadSanitizer: ");
+        size_t e = err.find_first_of("(\n", b);
+        std::string kind = err.substr(b, e - b);
+        while (!kind.empty() && kind.back() == ' ')
+            kind.pop_back();
+        for (auto &ch : kind)
+            if (ch == ' ')
+                ch = '_';
+        // first frame inside the repository anywhere in the report
+        size_t pos = e;
+        while ((pos = err.find(" #", pos)) != std::string::npos)
+        {
+            size_t le = err.find('\n', pos);
+            std::string line = err.substr(pos, le - pos);
+            pos = le == std::string::npos ? err.size() : le;
+            size_t rp = line.find(root);
+            if (rp == std::string::npos)
+                continue;
+            // " #0 func(args) /repo/file:line:col (binary+0x..)"
+            size_t fs = line.find(' ', 2);
+            std::string fn = line.substr(fs + 1, rp - fs - 2);
+            size_t par = fn.find('(');
+            if (par != std::string::npos)
+                fn = fn.substr(0, par);
+            return "tsan:" + kind + "@" + fn;
+        }
+        return "tsan:" + kind;
+    }
     a = err.find("runtime error: ");
     if (a != std::string::npos)
     {
@@ -1256,6 +1287,10 @@ extern "C" const char *__asan_default_options()
            "allocator_may_return_null=1:handle_abort=1:malloc_context_size=6";
 }
 extern "C" const char *__ubsan_default_options() { return "print_stacktrace=0"; }
+extern "C" const char *__tsan_default_options()
+{
+    return "halt_on_error=1:abort_on_error=0:exitcode=98:report_signal_unsafe=0:history_size=4";
+}
 
 #ifndef VPBT_LIBFUZZER
 int main(int argc, char **argv)
